@@ -63,13 +63,12 @@ Proof. exact sort_by_noninjective_key_refuted. Qed.
 Print Assumptions C19_sort_by_noninjective_key_refuted.
 
 (* OBLIGATIONS AGAINST THE CURRENT SOURCE (Gen.MapRanges) *)
-Theorem C19_ranges_classified :
-  subset (unsafe_ranges ranges) reviewed && subset reviewed (unsafe_ranges ranges) = true.
+Theorem C19_ranges_classified : same_multiset (unsafe_ranges ranges) reviewed = true.
 Proof. exact unsafe_ranges_are_the_reviewed_ones. Qed.
 Print Assumptions C19_ranges_classified.
 
 Theorem C19_required_sites_sorted :
-  forallb (fun s => match class_of ranges (fst s) (snd s) with Some CollectSort => true | _ => false end) required_sorted = true.
+  forallb (fun s => Nat.leb (snd s) (sorted_in ranges (fst s))) required_sorted = true.
 Proof. exact required_sites_sorted. Qed.
 Print Assumptions C19_required_sites_sorted.
 
